@@ -137,6 +137,9 @@ pub fn gen_aligned(c: &mut Choices<'_>) -> Value {
 /// comments before them and at the end of their lines.
 fn gen_imports(c: &mut Choices<'_>) -> Value {
     let n = 2 + c.below(5);
+    // exact duplicates of the first import (merged away under the granularity options unless a
+    // comment is attached); only without reordering, which moves trailing comments (KF of C11)
+    let dups = c.chance(1, 3);
     let mut comments: Vec<Value> = vec![];
     let mut next = 0usize;
     let mut src = String::new();
@@ -148,7 +151,9 @@ fn gen_imports(c: &mut Choices<'_>) -> Value {
             src.push_str(&format!("{text}\n"));
             comments.push(json!({"payload": payload, "text": text, "slot": "import-leading", "block": false}));
         }
-        let body = match c.weighted(&[4, 2, 1]) {
+        let body = match c.weighted(&[4, 2, 1, if dups { 3 } else { 0 }]) {
+            3 => "use m0::a;".to_string(),
+            0 if i == 0 => "use m0::a;".to_string(),
             0 => format!("use m{i}::{};", *c.pick(&["a", "{b, a}", "x as y", "*"])),
             1 => format!("use e{i}::{{}};"),
             _ => "use {};".to_string(),
@@ -169,9 +174,42 @@ fn gen_imports(c: &mut Choices<'_>) -> Value {
     }
     src.push_str("\nfn after_imports() {}\n");
     let mut opts: Opts = vec![];
-    if c.flip() {
+    if dups || c.flip() {
         opts.push(("reorder_imports".into(), "false".into()));
     }
+    if dups && c.chance(2, 3) {
+        // (Item granularity drops commented duplicates: a known finding of C10)
+        opts.push(("imports_granularity".into(), (*c.pick(&["Crate", "Module", "One"])).to_string()));
+    }
+    json!({"src": src, "opts": opts_to(&opts), "origin": "prog", "layout": 0, "comments": comments})
+}
+
+/// An item in statement position followed by a comment and a redundant `;` (which rustfmt may
+/// drop), under every style edition.
+fn gen_item_stmt_semicolon(c: &mut Choices<'_>) -> Value {
+    let mut comments: Vec<Value> = vec![];
+    let mut body = String::new();
+    let n = 1 + c.below(3);
+    for i in 0..n {
+        let item = match c.below(5) {
+            0 => format!("struct Unit{i};"),
+            1 => format!("fn  inner{i} ( ) {{ }}"),
+            2 => format!("const C{i} : u8 = {i} ;"),
+            3 => format!("enum E{i} {{ A , B }}"),
+            _ => format!("use  m{i} :: x ;"),
+        };
+        let payload = format!("c{i}");
+        let block = c.chance(1, 4);
+        let text = if block { format!("/* {payload} about the item */") } else { format!("// {payload} about the item") };
+        match c.below(3) {
+            0 => body.push_str(&format!("    {item} {text}\n    ;\n")),
+            1 => body.push_str(&format!("    {item}\n    {text}\n    ;\n")),
+            _ => body.push_str(&format!("    {item} {text}\n    let  v{i} = {i} ;\n")),
+        }
+        comments.push(json!({"payload": payload, "text": text, "slot": "after-item-statement", "block": block}));
+    }
+    let src = format!("fn f() {{\n{body}}}\n");
+    let opts: Opts = vec![("style_edition".into(), (*c.pick(&["2015", "2021", "2024", "2027"])).to_string())];
     json!({"src": src, "opts": opts_to(&opts), "origin": "prog", "layout": 0, "comments": comments})
 }
 
@@ -190,7 +228,7 @@ impl Property for C03 {
         }
     }
     fn rule(&self) -> &'static str {
-        "corpus grid cells whose comments are judged when an independent parse places them at item / statement / list-element boundaries or inside a function body, and generated programs with uniquely numbered line/block comments injected at the slot kinds the property names (between items, statements, fields, variants, arms, parameters, arguments, end of such a line, inside a function-body statement); oracle: every judged comment reappears with the same text up to re-indentation and trailing blanks (unique payloads exactly once; repeated corpus comments with the same multiplicity), no comment text is invented; under wrap_comments/normalize_comments the words of every comment appear in order in the output's comment stream; non-trivial = the case has a judged comment and the formatted text differs from the input; distinct by case content"
+        "corpus grid cells whose comments are judged when an independent parse places them at item / statement / list-element boundaries or inside a function body, and generated programs with uniquely numbered line/block comments injected at the slot kinds the property names (between items, statements, fields, variants, arms, parameters, arguments, end of such a line, inside a function-body statement), runs of imports with comments (empty imports, exact duplicates under the granularity options), items in statement position followed by a comment and a redundant semicolon under every style edition; oracle: every judged comment reappears with the same text up to re-indentation and trailing blanks (unique payloads exactly once; repeated corpus comments with the same multiplicity), no comment text is invented; under wrap_comments/normalize_comments the words of every comment appear in order in the output's comment stream; non-trivial = the case has a judged comment and the formatted text differs from the input; distinct by case content"
     }
     fn assumptions(&self) -> Vec<&'static str> {
         vec!["comments outside the claimed positions (e.g. between `fn` and the name) are counted, not judged", "runs in which rustfmt reports a parse error are not judged; a reported LostComment leaves the statement as written and is judged like any other run"]
@@ -217,6 +255,9 @@ impl Property for C03 {
         }
         if c.chance(1, 10) {
             return gen_imports(c);
+        }
+        if c.chance(1, 20) {
+            return gen_item_stmt_semicolon(c);
         }
         let p = gen_prog(
             c,
